@@ -355,7 +355,9 @@ func (x *Exec) execInstr(bc *blockCtx, in ssa.Instruction) ([]*Edge, bool) {
 	case *ssa.Go:
 		// spawned goroutines are outside the sequential model: their effects on
 		// memory read by this function are not modelled (stated assumption)
-		x.note("go statements are skipped: goroutine bodies are not part of the sequential verification condition")
+		x.note("go statements are skipped: goroutine bodies are not part of the sequential verification condition; ghost(gos) counts the goroutines started")
+		x.registerGhost("G_gos")
+		bc.st.heaps["G_gos"] = x.b.Add(x.getHeap(bc.st, "G_gos"), x.b.Int(1))
 		return nil, false
 	case *ssa.Select:
 		panic(unsupported(fmt.Sprintf("concurrency instruction %T", in)))
